@@ -191,6 +191,48 @@ def battery_ops():
     return ops
 
 
+def reload_ops(cfgpath, new_text):
+    """the second half of an R6 session: rewrite the configuration file, tell the server, then ask
+    again (re-parses included)"""
+    main = f"{ROOT}/main.f90"
+    ops = [gen.env_write(cfgpath, new_text),
+           gen.note("workspace/didChangeConfiguration", {"settings": {}}),
+           {"k": "obs", "what": "indexed"}]
+    nid = [5000]
+
+    def rid():
+        nid[0] += 1
+        return nid[0]
+
+    ch = {"range": {"start": {"line": 0, "character": 0}, "end": {"line": 0, "character": 0}}, "text": "! d\n"}
+    for p in (main, f"{ROOT}/pp.F90", f"{ROOT}/low.f90", f"{ROOT}/hh.h"):
+        ops.append(gen.did_change(p, [dict(ch)]))
+        ops.append(gen.req(rid(), "textDocument/documentSymbol", {"textDocument": {"uri": gen.uri(p)}}))
+    ops.append(gen.req(rid(), "workspace/symbol", {"query": ""}))
+    for (li, ch_) in [(9, 45), (10, 15), (13, 12), (14, 10), (4, 17), (5, 40), (19, 16), (21, 45)]:
+        ops.append(gen.positional(rid(), "textDocument/hover", main, li + 2, ch_))
+    for (li, ch_) in [(16, 12), (17, 6), (14, 8), (1, 8), (9, 7)]:
+        ops.append(gen.positional(rid(), "textDocument/completion", main, li + 2, ch_))
+    for (li, ch_) in [(15, 17), (14, 24), (13, 15)]:
+        ops.append(gen.positional(rid(), "textDocument/signatureHelp", main, li + 2, ch_))
+    ops.append(gen.did_save(f"{ROOT}/pp.F90"))
+    # saving is what makes the server publish diagnostics (line lengths among them)
+    ops.append(gen.env_write(main, "! d\n! c\n" + workspace()[main]))
+    ops.append(gen.did_save(main))
+    ops.append(gen.req(rid(), "workspace/symbol", {"query": "w"}))
+    return ops
+
+
+def with_reload(sched, cfgname, new_text):
+    cfgpath = cfgname if cfgname.startswith("/") else f"{ROOT}/{cfgname}"
+    ops = sched["ops"]
+    tail = ops[-2:]  # shutdown, exit
+    sched = dict(sched, ops=ops[:-2] + [{"k": "mark", "what": "reload"}] + reload_ops(cfgpath, new_text) + tail)
+    sched["ops"] = [o for o in sched["ops"] if o.get("k") != "mark"]
+    sched["reload_at"] = len(ops) - 2
+    return sched
+
+
 def bringup(argv, filecfg_text=None, cfgname=".fortlsrc", faults=None, extra_tree=None):
     tree = workspace()
     if filecfg_text is not None:
@@ -223,6 +265,14 @@ def relation_table(tier):
         tab.append(("R3", {"opt": opt, "v": v1, "file": {}}))
         other = "hover_language" if opt != "hover_language" else "nthreads"
         tab.append(("R3", {"opt": opt, "v": v1, "file": {other: OPTIONS[other][1]}}))
+    # R6: the configuration file is rewritten while the server runs and the client says so
+    # (workspace/didChangeConfiguration). A server may ignore that or load the new file; what it may
+    # not do is end up with options that correspond to neither file
+    for opt in OPTIONS:
+        kind, v1, v2 = OPTIONS[opt]
+        other = "max_line_length" if opt != "max_line_length" else "hover_language"
+        tab.append(("R6", {"opt": opt, "cli": v1, "f1": {opt: v2}, "f2": {other: OPTIONS[other][1]}}))
+        tab.append(("R6", {"opt": opt, "cli": v2, "f1": {opt: v1, other: OPTIONS[other][2]}, "f2": {}}))
     # configuration faults
     valid = json.dumps({"nthreads": 3, "hover_language": "ff", "pp_defs": {"FOO": ""}, "excl_paths": ["sub"]})
     base_cli = [["--hover_language", "clilang"], ["--pp_defs", '{"BAR": "1"}', "--pp_suffixes", ".f90"]]
@@ -263,7 +313,7 @@ def gen_case(g):
         rel, spec = "R5", {"o1": o1, "o2": o2, "v1": OPTIONS[o1][1], "v2": OPTIONS[o2][2],
                            "chan": rng.choice(["cf", "fc"])}
     cfgname = rng.choice(CONFIG_NAMES)
-    if rel in ("R1", "R2", "R3", "R5") and rng.random() < 0.4:
+    if rel in ("R1", "R2", "R3", "R5", "R6") and rng.random() < 0.4:
         # the file may have any name and live anywhere; what it says means the same
         cfgname = rng.choice(ELSEWHERE)
     A = B = None
@@ -290,6 +340,13 @@ def gen_case(g):
         else:
             A = bringup(cli_args(o2, spec["v2"]), json.dumps({o1: spec["v1"]}), cfgname)
         B = bringup(cli_args(o1, spec["v1"]) + cli_args(o2, spec["v2"]))
+    elif rel == "R6":
+        cli = cli_args(spec["opt"], spec["cli"])
+        t1, t2 = json.dumps(spec["f1"]), json.dumps(spec["f2"])
+        A = with_reload(bringup(cli, t1, cfgname), cfgname, t2)   # F1, then F2 + notification
+        B = with_reload(bringup(cli, t1, cfgname), cfgname, t1)   # F1 all along
+        B2 = with_reload(bringup(cli, t2, cfgname), cfgname, t2)  # F2 all along
+        return {"rel": rel, "spec": spec, "A": A, "B": B, "B2": B2, "expect_message": False, "cfgname": cfgname}
     elif rel == "R4":
         cli = spec["cli"]
         f = spec["fault"]
@@ -353,6 +410,39 @@ def exec_case(case, run_fn):
     viol = []
     summ = dict(ra)
     summ["runs"] = 2
+    if case["rel"] == "R6":
+        rb2 = run_fn(case["B2"])
+        summ["runs"] = 3
+        summ["steps"] = ra.get("steps", 0) + rb.get("steps", 0) + rb2.get("steps", 0)
+        summ["fired"] = []
+        for r in (ra, rb, rb2):
+            if r.get("status") != "done":
+                summ["status"] = r.get("status")
+                summ["error"] = r.get("error")
+                summ["violations"] = [v for x in (ra, rb, rb2) for v in x.get("violations", [])]
+                return summ
+
+        def tail(r):
+            # effects from the reload notification on (labels are per-method ordinals, equal in all runs)
+            eff = r.get("effects", [])
+            k = next((j for j, e in enumerate(eff) if e[0].startswith("workspace/didChangeConfiguration")), len(eff))
+            return eff[k:]
+
+        ta, tb, tb2 = tail(ra), tail(rb), tail(rb2)
+        d1, d2 = first_diff(ta, tb), first_diff(ta, tb2)
+        spec = case["spec"]
+        if d1 is not None and d2 is not None:
+            viol.append({"prop": "C19", "clause": "R6-neither-file",
+                         "site": f"{spec['opt']}: {d1[0]} / {d2[0]}",
+                         "detail": f"{spec}: after the configuration file was rewritten and announced the answers "
+                                   f"match neither a server on the old file ({d1[1][:300]}) nor one on the new "
+                                   f"file ({d2[1][:300]})", "op": 0, "coarse": f"R6:{spec['opt']}"})
+        summ["violations"] = [v for x in (ra, rb, rb2) for v in x.get("violations", [])] + viol
+        summ["sample"] = {"rel": "R6", "spec": spec}
+        import hashlib
+
+        summ["digest"] = hashlib.sha256(json.dumps(["R6", spec, ta, tb, tb2], sort_keys=True).encode()).hexdigest()
+        return summ
     summ["steps"] = ra.get("steps", 0) + rb.get("steps", 0)
     summ["fired"] = ra.get("fired", []) + rb.get("fired", [])
     rel, spec = case["rel"], case["spec"]
